@@ -205,6 +205,13 @@ def materialise(p, ch, d: Path):
 def replay_history(case):
     hist = case["hist"]
     out = []
+    # the hook module records every table of every call: drop its event list between histories (long-lived workers would
+    # otherwise grow by gigabytes over a thorough run)
+    try:
+        from OpenPinch import _verif as _hooks
+        _hooks.reset()
+    except Exception:
+        pass
     fresh = _W["fresh"]
     tmp = Path(tempfile.mkdtemp(prefix="c16_"))
     earlier = []       # (result object, digest when returned)
